@@ -134,13 +134,15 @@ Fixpoint resolve (v : verdict) (name : option str) : option str * bool :=
   | VName o => match name with Some n => (Some n, true) | None => resolve o name end
   end.
 
-Definition detect_verdict (input : bytes) (final : bool) : verdict :=
+(* [patched] = with fixes/C07-utf16-bom-at-end.patch (the model proper);
+   [patched = false] is the pinned tree, kept to state what was wrong with it *)
+Definition detect_verdict_gen (patched : bool) (input : bytes) (final : bool) : verdict :=
   let cand := candidates input in
   let li := length input in
   let fallback : option str * bool :=
     if final then
-      (* fixes/C07-utf16-bom-at-end.patch: FF FE (00) at the end of the input *)
-      if (cand =? N.lor C_UTF_16_AS_LE C_UTF_32_AS_LE) && (2 <=? li)%nat then (Some s_utf16, true)
+      (* FF FE (00) at the end of the input *)
+      if patched && (cand =? N.lor C_UTF_16_AS_LE C_UTF_32_AS_LE) && (2 <=? li)%nat then (Some s_utf16, true)
       else (Some s_utf8, false)
     else (None, false) in
   if cand =? 0 then V (Some s_utf8, false)
@@ -157,6 +159,8 @@ Definition detect_verdict (input : bytes) (final : bool) : verdict :=
     else if (cand =? C_CHARSET) && (4 <=? li)%nat then VName (V fallback)
     else V fallback
   else V fallback.
+
+Definition detect_verdict : bytes -> bool -> verdict := detect_verdict_gen true.
 
 Definition detectencoding_str (input : bytes) (final : bool) : option str * bool :=
   resolve (detect_verdict input final) (charset_name input).
